@@ -164,6 +164,15 @@ func (i *ignore) TeardownBlockStatement(meta *ast.Meta) {
 		}
 	}
 
+	// The comments in front of the closing brace are the infix comments of the block,
+	// a range may end there: { ...; // falco-ignore-end }
+	for _, c := range meta.Infix {
+		ignoreType, rules := parseIgnoreComment(c.String())
+		if ignoreType == falcoIgnoreEnd {
+			unignoreRules(&i.ignoreRange, rules)
+		}
+	}
+
 	for _, c := range meta.Trailing {
 		switch ignoreType, rules := parseIgnoreComment(c.String()); ignoreType {
 		case falcoIgnoreThisLine:
